@@ -48,11 +48,14 @@ where
             }
         }
         if self.ptr - start != length {
-            let end = if self.ptr >= self.length {
+            let mut end = if self.ptr >= self.length {
                 self.ptr
             } else {
                 self.ptr + 1
             };
+            while !self.source.as_ref().is_char_boundary(end) {
+                end += 1;
+            }
             let seq = self.source.slice(start..end).as_ref().to_owned();
             return error!(ErrorKind::InvalidUnicodeEscapeSequence(seq), self.ptr);
         }
